@@ -16,6 +16,7 @@ package main
 
 import (
 	"fmt"
+	"os"
 	"math/rand"
 	"strings"
 
@@ -26,6 +27,9 @@ func main() {
 	r := core.NewRun("C23", "exploration",
 		"one case = a generated trigger set (0-3 triggers per (table, BEFORE/AFTER, INSERT/UPDATE/DELETE), bodies = audit row + SET NEW / nested DML on the next table / IF..SIGNAL, FOLLOWS/PRECEDES) and 10 DML statements (multi-row, ORDER BY, failing at row k by duplicate key or SIGNAL, FK cascades); after each statement the audit sequence, all tables and the outcome are compared with a reference interpreter; distinct = (statement kind, classes of triggers fired, nesting depth reached, outcome)")
 	r.Fold(8, 3)
+	if d := os.Getenv("C23_DEPTH"); d != "" {
+		fmt.Sscan(d, &chainDepth)
+	}
 	r.Assume("trigger order inside a class is asserted as a partial order (creation order among clause-less triggers, FOLLOWS/PRECEDES pairs); the observed linear extension is fed to the model")
 	r.Assume("UPDATEs always change every matched row (MySQL's treatment of no-op row updates is not asserted); every multi-row UPDATE/DELETE carries ORDER BY on the key; all data columns are NOT NULL integers")
 	r.Assume("the audit sequence is compared by order and content, not by the absolute auto-increment values (MySQL does not roll the counter back after a failed statement)")
@@ -34,7 +38,7 @@ func main() {
 	n := r.N(500, 9000)
 	r.Parallel("case", n, func(i int) { runCase(r, i) })
 	pinned(r)
-	r.Floor(r.Counter("fired.nested-depth-3") > 0, "no trigger chain of depth 3 fired")
+	r.Floor(r.Counter("fired.nested-depth-2") > 0, "no nested statement of a trigger body fired triggers itself")
 	r.Floor(r.Counter("stmt.failed-as-predicted") > 0, "no failing statement")
 	r.Floor(r.Counter("order.follows-precedes-checked") > 0, "FOLLOWS/PRECEDES never exercised")
 	r.Floor(r.Counter("fired.before-set-new") > 0 && r.Counter("fired.multi-row") > 0, "BEFORE SET NEW or multi-row statements never fired triggers")
@@ -47,12 +51,16 @@ func main() {
 var events = []string{"INSERT", "UPDATE", "DELETE"}
 var times = []string{"BEFORE", "AFTER"}
 
+var chainDepth = 3
+
 func nextTable(t string) string {
 	switch t {
 	case "m":
 		return "m2"
 	case "m2":
-		return "m3"
+		if chainDepth >= 3 {
+			return "m3"
+		}
 	}
 	return ""
 }
@@ -105,7 +113,54 @@ func genTriggers(rnd *rand.Rand, withC bool) []*trig {
 			}
 		}
 	}
+	if os.Getenv("C23_NOFILTER") == "" {
+		restrictNesting(out)
+	}
 	return out
+}
+
+// restrictNesting keeps the generated trigger set inside the core domain (known finding
+// nested-trigger-firing-corrupts-outer-row-context, via=domain): a nested statement that can itself
+// fire triggers (its target table has a trigger for that event) is only kept when nothing of the outer
+// row's processing runs after it — it is the last action of an AFTER trigger that is the only trigger
+// of its (table, event), BEFORE and AFTER together — and when the triggers it fires do not nest
+// further (trigger-firing depth <= 2). Nested statements on tables without a matching trigger are
+// unrestricted except inside triggers that are themselves fired by a nested statement.
+func restrictNesting(ts []*trig) {
+	count := map[string]int{}
+	for _, t := range ts {
+		count[t.table+"|"+t.event]++
+	}
+	ev := map[string]string{"insert": "INSERT", "update": "UPDATE", "delete": "DELETE"}
+	for _, t := range ts {
+		var kept []action
+		for i, a := range t.actions {
+			if e, nested := ev[a.kind]; nested {
+				if t.table != "m" {
+					continue // m2's and c's triggers never nest: depth <= 2
+				}
+				if count[a.target+"|"+e] > 0 && (t.time != "AFTER" || count[t.table+"|"+t.event] != 1 || i != len(t.actions)-1) {
+					continue
+				}
+			}
+			if a.kind == "setnew" && t.table == "c" && a.col == "a" {
+				continue // c.a is the foreign key column
+			}
+			// known finding set-new-not-visible-later-in-same-body (via=domain): after SET NEW.x no later
+			// action of the same body reads NEW.x (another SET NEW.x = NEW.x + k included)
+			stale := false
+			for _, p := range kept {
+				if p.kind == "setnew" && (a.e.ref == "new."+p.col || a.e2.ref == "new."+p.col) {
+					stale = true
+				}
+			}
+			if stale {
+				continue
+			}
+			kept = append(kept, a)
+		}
+		t.actions = kept
+	}
 }
 
 func genRef(rnd *rand.Rand, t *trig) expr {
@@ -454,7 +509,11 @@ func runCase(r *core.Run, i int) {
 			return w
 		}
 		if res.Panic != nil {
-			r.Violation(res.Panic.Sig(), wit("panic", map[string]any{"panic": res.Panic.Value, "stack": core.Clip(res.Panic.Stack, 2500)}))
+			sig := res.Panic.Sig()
+			if res.Panic.Site == "sql/plan.OrderTriggers" && m.hasClauses {
+				sig = "follows-precedes-misorders-triggers" // same defect: the re-ordering loses a trigger it then cannot find
+			}
+			r.Violation(sig, wit("panic", map[string]any{"panic": res.Panic.Value, "stack": core.Clip(res.Panic.Stack, 2500)}))
 			return
 		}
 		newAud, lastSeq, ok := readAud(s, es.lastSeq)
@@ -465,9 +524,14 @@ func runCase(r *core.Run, i int) {
 		es.lastSeq = lastSeq
 
 		// trigger order inside each class: read back, check against the partial order, give it to the model
+		if g := m.misordered(newAud); g != "" {
+			r.Eval(1)
+			r.Violation("follows-precedes-misorders-triggers", wit("in group "+g+" (which contains a FOLLOWS/PRECEDES trigger) the triggers fired per row are not each BEFORE trigger once then each AFTER trigger once", map[string]any{"audit": fmtAud(newAud)}))
+			return
+		}
 		if bad := m.adoptOrders(st.table, newAud); bad != "" {
 			r.Eval(1)
-			r.Violation("trigger-order-violates-follows-precedes", wit("observed trigger order is not a linear extension of the declared partial order: "+bad, map[string]any{"audit": fmtAud(newAud)}))
+			r.Violation("follows-precedes-misorders-triggers", wit("observed trigger order is not a linear extension of the declared partial order: "+bad, map[string]any{"audit": fmtAud(newAud)}))
 			return
 		}
 
@@ -505,14 +569,24 @@ func runCase(r *core.Run, i int) {
 		}
 		d := stateDiff(ideal, idealAud)
 		if d != "" && out.err != "" {
-			// F4: is the engine exactly in the state "target table restored, trigger side effects kept"?
-			if d2 := stateDiff(out.sideEffectsKept, out.aud); d2 == "" && len(out.aud) > 0 {
-				r.Violation("trigger-side-effect-survives-failed-stmt", wit("the statement failed but the rows its triggers wrote (audit / nested tables) are still there", map[string]any{"audit_kept": fmtAud(newAud)}))
-				if !r.IsKnown("trigger-side-effect-survives-failed-stmt") {
-					return
+			// F4: is the engine exactly in the state "target table restored, trigger side effects kept", or
+			// exactly in the state reached at the point of failure (nothing undone)?
+			for _, mode := range []struct {
+				sig   string
+				state *model
+			}{{"trigger-side-effect-survives-failed-stmt", out.sideEffectsKept}, {"failed-stmt-nothing-rolled-back", out.tentative}} {
+				if d2 := stateDiff(mode.state, out.aud); d2 == "" {
+					r.Violation(mode.sig, wit("the statement failed but effects of it are still there ("+mode.sig+")", map[string]any{"audit_kept": fmtAud(newAud), "first_difference_from_full_rollback": d}))
+					if !r.IsKnown(mode.sig) {
+						return
+					}
+					m.become(mode.state)
+					r.Count("stmt.failed-as-predicted", 1)
+					d = "adopted"
+					break
 				}
-				m.become(out.sideEffectsKept)
-				r.Count("stmt.failed-as-predicted", 1)
+			}
+			if d == "adopted" {
 				continue
 			}
 		}
@@ -624,4 +698,93 @@ func pinned(r *core.Run) {
 			!core.SameStrings(got, want) || !core.SameStrings(got2, want2), map[string]any{"odku": got, "replace": got2})
 		e.Close()
 	}
+	run := func(stmts ...string) (*core.Eng, *core.Sess, *core.Result) {
+		e := core.NewEng("d")
+		s := e.NewSess()
+		var last *core.Result
+		for _, q := range stmts {
+			last = s.Exec(q)
+		}
+		return e, s, last
+	}
+	audTrg := "INSERT INTO aud (trg, oid, oa, ob) VALUES "
+	// F4, second mode: nothing rolled back
+	{
+		e, s, res := run(ddlM, ddlAud, "INSERT INTO m VALUES (1, 1, 1), (2, 9, 1)",
+			"CREATE TRIGGER ad AFTER DELETE ON m FOR EACH ROW BEGIN "+audTrg+"('ad', OLD.id, OLD.a, OLD.b); IF OLD.a > 5 THEN SIGNAL SQLSTATE '45000' SET MESSAGE_TEXT = 'boom'; END IF; END",
+			"DELETE FROM m WHERE id >= 1 ORDER BY id")
+		got, _ := readTbl(s, "m")
+		want := []string{"1|1|1", "2|9|1"}
+		r.Pinned("failed-stmt-nothing-rolled-back", fmt.Sprintf("2-row DELETE whose AFTER DELETE trigger signals on the 2nd row fails (%v) but m is %v, expected %v", res.Err, got, want),
+			res.Err != nil && !core.SameStrings(got, want), map[string]any{"m": got})
+		e.Close()
+	}
+	// OrderTriggers
+	{
+		mkT := func(name, time, clause string) string {
+			return "CREATE TRIGGER " + name + " " + time + " DELETE ON m FOR EACH ROW " + clause + " BEGIN " + audTrg + "('" + name + "', OLD.id, OLD.a, OLD.b); END"
+		}
+		e, s, _ := run(ddlM, ddlAud, "INSERT INTO m VALUES (1, 1, 1)", mkT("bd1", "BEFORE", ""), mkT("bd2", "BEFORE", "PRECEDES bd1"),
+			mkT("ad1", "AFTER", ""), mkT("ad2", "AFTER", "FOLLOWS ad1"), mkT("ad3", "AFTER", ""), "DELETE FROM m WHERE id = 1")
+		got := audOf(s)
+		want := []string{"bd2", "bd1", "ad1", "ad2", "ad3"}
+		r.Pinned("follows-precedes-misorders-triggers", fmt.Sprintf("DELETE of one row with bd1, bd2 PRECEDES bd1, ad1, ad2 FOLLOWS ad1, ad3 fired %v, expected %v", got, want),
+			!core.SameStrings(got, want), map[string]any{"fired": got})
+		e.Close()
+	}
+	// nested trigger firing corrupts the outer row context (three faces)
+	{
+		e1, s1, _ := run(ddlM, ddlM2, ddlAud, "INSERT INTO m VALUES (103, 5, 1)", "INSERT INTO m2 (a, b) VALUES (3, 1)",
+			"CREATE TRIGGER m_ad1 AFTER DELETE ON m FOR EACH ROW BEGIN "+audTrg+"('m_ad1', OLD.id, OLD.a, OLD.b); UPDATE m2 SET b = b + 1 WHERE a = OLD.b + 2 ORDER BY k; END",
+			"CREATE TRIGGER m_ad2 AFTER DELETE ON m FOR EACH ROW BEGIN "+audTrg+"('m_ad2', OLD.id, OLD.a, OLD.b); END",
+			"CREATE TRIGGER m2_bu1 BEFORE UPDATE ON m2 FOR EACH ROW BEGIN "+audTrg+"('m2_bu1', NULL, OLD.a, OLD.b); SET NEW.b = OLD.b + 100; END",
+			"CREATE TRIGGER m2_au1 AFTER UPDATE ON m2 FOR EACH ROW BEGIN "+audTrg+"('m2_au1', NULL, OLD.a, OLD.b); END",
+			"DELETE FROM m WHERE id = 103")
+		rows, _, _ := readAud(s1, 0)
+		face1 := "missing"
+		for _, a := range rows {
+			if a.trg == "m_ad2" {
+				face1 = a.v[0] + "," + a.v[1] + "," + a.v[2]
+			}
+		}
+		e1.Close()
+		e2, _, res2 := run(ddlM, ddlM2, ddlM3, "INSERT INTO m VALUES (2, 1, 5)", "INSERT INTO m2 (a, b) VALUES (5, 0)", "INSERT INTO m2 (a, b) VALUES (3, 7)",
+			"CREATE TRIGGER m_bi1 BEFORE INSERT ON m FOR EACH ROW BEGIN UPDATE m2 SET b = b + 2 WHERE a = NEW.a ORDER BY k; END",
+			"CREATE TRIGGER m2_au1 AFTER UPDATE ON m2 FOR EACH ROW BEGIN UPDATE m3 SET b = b + 2 WHERE a = OLD.b + 2 ORDER BY k; END",
+			"CREATE TRIGGER m3_bu1 BEFORE UPDATE ON m3 FOR EACH ROW BEGIN SET NEW.b = NEW.b + 3; END",
+			"INSERT INTO m (id, a, b) VALUES (101, 7, 2), (102, 3, 6), (103, 7, 2)")
+		e2.Close()
+		e3, _, res3 := run(ddlM, ddlM2, ddlM3, ddlAud,
+			"CREATE TRIGGER m_ai1 AFTER INSERT ON m FOR EACH ROW BEGIN INSERT INTO m2 (a, b) VALUES (NEW.b, NEW.b + 2); END",
+			"CREATE TRIGGER m_ai2 AFTER INSERT ON m FOR EACH ROW BEGIN "+audTrg+"('m_ai2', NEW.id, NEW.a, NEW.b); END",
+			"CREATE TRIGGER m2_ai1 AFTER INSERT ON m2 FOR EACH ROW BEGIN INSERT INTO m3 (a, b) VALUES (NEW.b + 2, NEW.a + 1); END",
+			"CREATE TRIGGER m2_ai2 AFTER INSERT ON m2 FOR EACH ROW PRECEDES m2_ai1 BEGIN UPDATE m3 SET b = b + 2 WHERE a = NEW.a ORDER BY k; END",
+			"CREATE TRIGGER m3_bu1 BEFORE UPDATE ON m3 FOR EACH ROW BEGIN SET NEW.b = OLD.b + 100; END",
+			"INSERT INTO m (id, a, b) VALUES (101, 8, 5), (102, 7, 5)")
+		e3.Close()
+		fails := face1 != "103,5,1" || res2.Failed() || res3.Failed()
+		r.Pinned("nested-trigger-firing-corrupts-outer-row-context", fmt.Sprintf("(1) after m_ad1's nested UPDATE m2 fired m2_bu1 and m2_au1, m_ad2 logs OLD = (%s), expected (103,5,1); (2) 3-row INSERT whose BEFORE trigger updates m2 (whose AFTER UPDATE trigger updates m3) fails: %v; (3) depth-3 chain fails: %v",
+			face1, errText(res2), errText(res3)), fails, map[string]any{"face1": face1, "face2": errText(res2), "face3": errText(res3)})
+	}
+	// SET NEW.x not visible to later statements of the same body
+	{
+		e, s, _ := run(ddlM, ddlM2, "INSERT INTO m2 (a, b) VALUES (7, 7), (9, 9)",
+			"CREATE TRIGGER bi BEFORE INSERT ON m FOR EACH ROW BEGIN SET NEW.b = NEW.b + 2; UPDATE m2 SET b = b + 2 WHERE a = NEW.b ORDER BY k; END",
+			"INSERT INTO m VALUES (101, 8, 7)")
+		got, _ := readTbl(s, "m2")
+		want := []string{"7|7", "9|11"}
+		r.Pinned("set-new-not-visible-later-in-same-body", fmt.Sprintf("SET NEW.b = NEW.b + 2; UPDATE m2 .. WHERE a = NEW.b for NEW.b = 7 leaves m2 = %v, expected %v", got, want),
+			!core.SameStrings(got, want), map[string]any{"m2": got})
+		e.Close()
+	}
+}
+
+func errText(r *core.Result) string {
+	if r.Panic != nil {
+		return "panic: " + r.Panic.Value
+	}
+	if r.Err != nil {
+		return core.Clip(r.Err.Error(), 90)
+	}
+	return "ok"
 }
